@@ -428,6 +428,24 @@ func vfH_fault_read() {
 	if nrErr != nil {
 		vfAssert(e1 == nrErr, "c05-same-error-as-first")
 	}
+	if tier >= 1 && shape == 0 && chunk == 0 && kind == vfFaultEOF {
+		// up to the documented threshold: the same error on every call, then the
+		// documented panic on the 1000th failed read
+		for rc.readErrCount < 999 {
+			_, r, e := rc.NextReader()
+			vfAssert(r == nil && e == e1, "c05-error-is-sticky")
+		}
+		panicked := false
+		func() {
+			defer func() {
+				if recover() != nil {
+					panicked = true
+				}
+			}()
+			rc.NextReader()
+		}()
+		vfAssert(panicked, "c05-documented-panic-at-1000")
+	}
 	if failed {
 		vfReach("fault-read-failed-message")
 	} else {
